@@ -331,12 +331,16 @@ def member(n, s):
 
 # ---------------------------------------------------------------- translation
 class Tr:
-    def __init__(self, pattern, mandatory_groups=(), drop_groups=()):
+    def __init__(self, pattern, mandatory_groups=(), drop_groups=(), clip=None):
         self.p = pattern
         self.flags = pattern.flags
         self.is_bytes = isinstance(pattern.pattern, bytes)
         self.unicode = not self.is_bytes and not (self.flags & re.ASCII)
         self.hi = 255 if self.is_bytes else MAXCP
+        if clip is not None:
+            # restrict the alphabet: for concat/union/star regexes, clipping every class gives L & [0..clip]*
+            self.hi = min(self.hi, clip)
+        self.clip = clip
         self.ignorecase = bool(self.flags & re.IGNORECASE)
         self.multiline = bool(self.flags & re.MULTILINE)
         self.dotall = bool(self.flags & re.DOTALL)
@@ -400,6 +404,12 @@ class Tr:
 
     def single(self, op, av):
         """Ranges for a single-character node, or None."""
+        r = self._single(op, av)
+        if r is not None and self.clip is not None:
+            r = [(lo, min(hi, self.clip)) for lo, hi in r if lo <= self.clip]
+        return r
+
+    def _single(self, op, av):
         if op is sre_c.LITERAL:
             return merge_ranges(self.lit_ranges(av))
         if op is sre_c.NOT_LITERAL:
